@@ -1732,6 +1732,12 @@ lyd_validate_must(const struct lyd_node *node, uint32_t val_opts, uint32_t int_o
     for (tree = node; tree->parent; tree = lyd_parent(tree)) {}
     tree = lyd_first_sibling(tree);
 
+    if (val_opts & LYD_VALIDATE_OPERATIONAL) {
+        /* all when conditions were resolved, a false one is only a warning for operational data and the node is kept
+         * (without LYD_WHEN_TRUE), it is not a node with an unevaluated when */
+        xpath_options |= LYXP_IGNORE_WHEN;
+    }
+
     LY_ARRAY_FOR(musts, u) {
         memset(&xp_set, 0, sizeof xp_set);
 
